@@ -45,7 +45,9 @@ Section Run.
         end
     | OIAdd i j =>
         let '(a', r) := iadd (get p i) (get p j) in
-        (set p i a', oc r :: snap a')
+        (* after a rejected += only the outcome is observed: the partial state depends on the
+           order in which Python visits dictionary entries (known finding C10-iadd-partial) *)
+        (set p i a', match r with Done => 0 :: snap a' | Raise => [1] end)
     | OMul i f =>
         match mul (get p i) f with
         | Ok c => (p ++ [c], 0 :: snap c)
